@@ -11,7 +11,7 @@ import (
 
 func init() {
 	register(&Prop{
-		ID: "C09",
+		ID:   "C09",
 		Rule: "cases 0,1 mod 3: G-article pages with every block kind; (1) the token sequence of Result.Text must equal the token sequence of the visible text of Result.Node (harness' own walk: skips script/style, hidden/aria-hidden/display:none/visibility:hidden elements and embed placeholders); (2) ContentImages must be a subsequence of the list obtained by visiting img/source elements of Result.Node in document order and emitting src, then each srcset candidate. Cases 2 mod 3: text-only pages (paragraphs, headings, lists, quotes, pre, link clusters, javascript: anchors) with punctuation attached to / detached from words; (3) WordCount must equal the number of whitespace-separated items of Result.Text that contain an ASCII letter or digit. Non-trivial = output with tokens; distinct = distinct (mode, block kinds present, #images bucket or word-count bucket).",
 		Assumptions: []string{
 			"an embed placeholder stands for a frame the viewer substitutes: its inner text is not part of the visible text of the HTML view (C04 makes the same carve-out)",
